@@ -104,7 +104,8 @@ class LazyParsed:
                 return d
             v = self.cache[name]
             if isinstance(f, tm.UintField) and f.val_base_type is not int:
-                raise Unsupported('enum-typed uint field in parse summary')
+                from pyvc.values import Opaque
+                return Opaque('enum', f.val_base_type.__name__, {'__isinstance__': lambda t, _c=f.val_base_type: issubclass(_c, t) if isinstance(t, type) else False})
             return v
         if name == '__dict__':
             return _ParsedDict(self)
